@@ -601,3 +601,55 @@ Theorem C17_gen_dict_stores : forall dk dv dh xs key val h n i,
   (0 < n < 2147483648 -> dict_unset_remove dk dv dh i n = (0, if dv i =? 0 then -1 else 0, 0, n - 1, dk i, dv i)).
 Proof. exact gen_dict_stores. Qed.
 Print Assumptions C17_gen_dict_stores.
+
+(* === 10. the application's variables and the library's stored copies do not influence what a parse / load stores === *)
+From ScV Require Import C17.IndepProofs.
+
+(* ANY two worlds with the same declarations (up to the key texts the items remember: `wrel`), key-value tables and files, but
+   ARBITRARY values of all variables, arbitrary errno: sc_options_parse on the same getopt events returns the same value, leaves
+   the same events, keeps the worlds related, and every variable afterwards holds the SAME value in both worlds (assigned by the
+   text), or was touched in neither, or was counted up by the same number (switch / callback occurrences) from whatever it held *)
+Theorem C17_parse_independent_of_variables : forall (strtod : str -> Z * bool) w1 w2 o evs oe av, wrel w1 w2 ->
+  let r1 := parse strtod w1 o evs oe av in let r2 := parse strtod w2 o evs oe av in
+  fst (fst r1) = fst (fst r2) /\ snd r1 = snd r2 /\ wrel (snd (fst r1)) (snd (fst r2)) /\
+  srel (w_store w1) (w_store w2) (w_store (snd (fst r1))) (w_store (snd (fst r2))).
+Proof. exact parse_independent_of_variables. Qed.
+Print Assumptions C17_parse_independent_of_variables.
+
+(* the same for sc_options_load *)
+Theorem C17_load_independent_of_variables : forall (strtod : str -> Z * bool) w1 w2 o f, wrel w1 w2 ->
+  let r1 := load_ini strtod w1 o f in let r2 := load_ini strtod w2 o f in
+  fst r1 = fst r2 /\ wrel (snd r1) (snd r2) /\ srel (w_store w1) (w_store w2) (w_store (snd r1)) (w_store (snd r2)).
+Proof. exact load_independent_of_variables. Qed.
+Print Assumptions C17_load_independent_of_variables.
+
+(* a string option: the processing succeeds and the variable holds the argument, whatever it held and whatever was stored before *)
+Theorem C17_string_option_stores : forall (strtod : str -> Z * bool) w o k it arg, it_type it = TString ->
+  let r := apply_item strtod w o k it arg in
+  fst r = 0 /\ st_get (w_store (snd r)) (sobj_var w (it_var it)) = VS arg.
+Proof. exact string_option_stores. Qed.
+Print Assumptions C17_string_option_stores.
+
+(* tie T1: sc_options_string_set frees the old copy, duplicates the new text and stores the duplicate in the copy AND the
+   variable, unconditionally (= the model's string_set); sc_options_string_get re-reads the variable: it returns the text of the
+   variable (= the model's string_get) under any interpretation of addresses as texts *)
+Theorem C17_gen_string_holder : forall old newv dup var val cmp,
+  holder_set old newv dup = (dup, dup, old, newv) /\
+  holder_get var val cmp dup =
+    (if (negb (Bool.eqb (var =? 0) (val =? 0))) || (negb (var =? 0) && negb (val =? 0) && negb (cmp =? 0))
+     then (dup, dup, val, var) else (val, val, 0, 0)) /\
+  (forall txt : Z -> option str, (forall p, txt p = None <-> p = 0) -> (var <> 0 -> val <> 0 -> (cmp = 0 <-> txt var = txt val)) ->
+     txt dup = txt var -> txt (fst (fst (fst (holder_get var val cmp dup)))) = txt var) /\
+  (forall sobjs st id v, st_get (string_set sobjs st id v) (match al_get sobjs id with Some s => so_var s | None => O end) = VS v).
+Proof. exact gen_string_holder. Qed.
+Print Assumptions C17_gen_string_holder.
+
+(* F-C17n (recorded): a string variable holding NULL is not written; the fresh object with the default "d" keeps "d" - and the
+   state is inside the executable guard (the round-trip theorem speaks about the written items) *)
+Theorem C17_null_string_roundtrip_refuted :
+  let w := snd (run toy_strtod toy_fmt empty_world nullstr_history) in
+  let r := run toy_strtod toy_fmt w [OSave 0 t_f; OLoad 4 t_f] in
+  roundtrip_ok_b toy_strtod toy_fmt w (get_opts w 0) = true /\ fst r = [0; 0] /\
+  st_str (w_store w) 0 = None /\ st_str (w_store (snd r)) 32 = Some [100] /\ st_int (w_store (snd r)) 33 = 7.
+Proof. exact null_string_roundtrip_refuted. Qed.
+Print Assumptions C17_null_string_roundtrip_refuted.
